@@ -519,3 +519,42 @@ Proof.
   intros Hre W1 W2 Hle Hlt. apply (map_keys_monotone_g BAlg okN53 wf_frac BAlg_laws c orc sp thr1 thr2 g); auto.
   intros I cls HR Hpos. split; [exact Hpos | apply (Hlt I cls HR)].
 Qed.
+
+(** ** 5. C04: totality of the stages after the tracker *)
+From Shexer Require Proofs.EndToEnd2.
+
+(** the constructor having accepted the specification, the trackers and the
+    profiler having succeeded with a profile all of whose type keys are
+    renderable: the shexing stage succeeds -- provided disjunctions are
+    disabled (the default) or empty shapes are kept.  (Both switched the other
+    way: [C04_choice_prune_run_refuted].) *)
+Theorem map_run_total_tokens fa c orc sp thr g I targets P C ID :
+  r_disable_or c = true \/ r_remove_empty c = false ->
+  r_disable_or c && r_allow_redundant_or c = false ->
+  Selectors.find_adequate_prefix (Selectors.sp_ns sp) <> None ->
+  Selectors.run orc sp g = Selectors.OOk I ->
+  prof_targets orc sp = Selectors.Ok targets ->
+  profile (pcfg_map c orc sp targets) I g = inl (P, C, ID) ->
+  (forall ce, In ce P -> tokens_ok (scfg_map c sp (Selectors.ns_with_shapes orc sp)) ce) ->
+  exists shapes, run_shapes_map fa c orc sp thr g = inl (Selectors.ns_with_shapes orc sp, shapes).
+Proof.
+  intros Hopt H0 HF HR HT HP Hok.
+  destruct (EndToEnd2.shex_total_either fa (scfg_map c sp (Selectors.ns_with_shapes orc sp)) thr P C Hopt Hok) as [shapes HS].
+  exists shapes. apply run_shapes_map_ok_iff. exists I, targets, P, C, ID. repeat split; auto.
+Qed.
+
+(** every failure of the run after the trackers and the profiler is a failure
+    of the shexing stage on the profile they produced *)
+Theorem map_failure_after_front fa c orc sp thr g I targets P C ID e :
+  Selectors.run orc sp g = Selectors.OOk I -> prof_targets orc sp = Selectors.Ok targets ->
+  profile (pcfg_map c orc sp targets) I g = inl (P, C, ID) ->
+  r_disable_or c && r_allow_redundant_or c = false ->
+  Selectors.find_adequate_prefix (Selectors.sp_ns sp) <> None ->
+  run_shapes_map fa c orc sp thr g = inr e ->
+  exists se, e = MERun (rerr_of_s se) /\
+             shex fa (scfg_map c sp (Selectors.ns_with_shapes orc sp)) thr P C = inr se.
+Proof.
+  intros HR HT HP H0 HF H. rewrite run_shapes_map_unfold, H0 in H.
+  destruct (Selectors.find_adequate_prefix (Selectors.sp_ns sp)); [|contradiction]. rewrite HR, HT, HP in H.
+  destruct (shex fa _ thr P C) as [sh|se] eqn:ES; [discriminate|]. injection H as <-. exists se. auto.
+Qed.
